@@ -397,8 +397,38 @@ def r3_keyerror_discipline(R) -> None:
     fb = Fn(R, f'{VC}._locate_period_in_span_fallback')
     per, span = fb.fi.params()[0], fb.fi.params()[1]
     src = text(fb.fi.node)
-    R.check(f'np.asarray({span}, dtype=object) == {per}' in src, fb.q, 'fallback-compare', 'the fallback matches by equality with the label (object comparison)',
-            f'the fallback does not compare `np.asarray({span}, dtype=object) == {per}` (a cast of the label to the span dtype would alias absent labels)', where=fb.fi.where)
+    # the comparison of the span (as objects) with the label: element by element, the label taken as ONE value.  A label that
+    # is itself a sequence (tuples are hashable, and legal labels) compared as `array == label` is broadcast against the
+    # span instead: (6,) "equals" the period 6, a tuple as long as the span matches wherever one element does
+    cmp_nodes = [(n, x) for n in fb.cfg.nodes if n.ast is not None and n.kind == 'stmt' for x in ast.walk(n.ast)
+                 if isinstance(x, ast.Compare) and len(x.ops) == 1 and isinstance(x.ops[0], ast.Eq) and f'np.asarray({span}, dtype=object)' in (text(x.left), text(x.comparators[0]))]
+    elementwise = [x for x in ast.walk(fb.fi.node) if isinstance(x, (ast.ListComp, ast.GeneratorExp)) and len(x.generators) == 1 and text(x.generators[0].iter) == span
+                   and isinstance(x.elt, ast.Compare) and len(x.elt.ops) == 1 and isinstance(x.elt.ops[0], ast.Eq)
+                   and sorted([text(x.elt.left), text(x.elt.comparators[0])]) == sorted([text(x.generators[0].target), per])]
+    if not cmp_nodes and not elementwise:
+        R.check(False, fb.q, 'fallback-compare', 'the fallback matches by equality with the label (object comparison)',
+                f'the fallback does not compare `np.asarray({span}, dtype=object)` with the label (a cast of the label to the span dtype would alias absent labels)', where=fb.fi.where)
+    for (n, x) in cmp_nodes:
+        other = x.comparators[0] if text(x.left) == f'np.asarray({span}, dtype=object)' else x.left
+        if text(other) == per:
+            R.violation(fb.q, 'fallback-compare-broadcast',
+                        f'`{text(x)}`: a label that is a tuple is broadcast against the span instead of being compared as one value - on a NumPy-array span the absent label (6,) '
+                        f'resolves to the period labelled 6, and a tuple as long as the span to whichever period one of its elements names: an absent label aliases another period',
+                        where=fb.where(n))
+            continue
+        boxed = False
+        if isinstance(other, ast.Name) and other.id in fb.lf.locals:
+            vals = fb.lf.values_reaching(n.id, other.id)
+            zero_d = vals and all(dv is not None and is_call(dv, 'np.empty', 'numpy.empty') and dv.args and text(dv.args[0]) == '()' and 'object' in text(dv) for (_s, dv) in vals)
+            filled = [m for m in fb.cfg.nodes if m.kind == 'stmt' and isinstance(m.ast, ast.Assign) and isinstance(m.ast.targets[0], ast.Subscript)
+                      and text(m.ast.targets[0]) == f'{other.id}[()]' and text(m.ast.value) == per and m.id in fb.dom[n.id]]
+            boxed = bool(zero_d and filled)
+        if boxed:
+            R.check(True, fb.q, 'fallback-compare', 'the fallback compares each element of the span with the label held as one object (no broadcasting of tuple labels)', '', where=fb.where(n))
+        else:
+            raise Unknown(f'{fb.q}: `{text(x)}`: whether the label is compared as one value was not read')
+    for x in elementwise:
+        R.check(True, fb.q, 'fallback-compare', 'the fallback compares the label with each element of the span in turn', '', where=fb.fi.where)
 
     def count_fact(nid: int, n: int) -> bool:
         """Is `number of matches == n` known at node nid?  The guards on `len(<matches>)` (directly or through a local), in
